@@ -137,6 +137,21 @@ func factsC09() {
 	})
 	addStrList("c09AuthURLCheck", chk, "backend.go setAuthExternal: the cross-namespace check")
 	addBool("c09AuthURLCheckBeforeFind", chkPos != token.NoPos && fbPos != token.NoPos && chkPos < fbPos, "backend.go setAuthExternal: the check precedes FindBackend")
+	// oauth: the lookup of the proxy's backend and its namespace guard
+	oa := methodDecl(back, "updater", "buildBackendOAuth")
+	addStrList("c09FindBackend", c08Skeleton(back, methodDecl(back, "updater", "findBackend")), "backend.go updater.findBackend: skeleton (the only cross-namespace guard of the oauth site)")
+	addStrList("c09FindBackendRanges", c18Ranges(back, methodDecl(back, "updater", "findBackend")), "backend.go updater.findBackend: what the loops range over")
+	addStrList("c09OAuthFindBackendArgs", c09CallArgs(back, oa, "c.findBackend", 0, 9), "backend.go buildBackendOAuth: arguments of every findBackend call")
+	var oans []string
+	ast.Inspect(oa, func(n ast.Node) bool {
+		if a, ok := n.(*ast.AssignStmt); ok && len(a.Lhs) == 1 {
+			if l := c08Src(back, a.Lhs[0]); l == "namespace" || l == "uriPrefix" {
+				oans = append(oans, c08Src(back, a))
+			}
+		}
+		return true
+	})
+	addStrList("c09OAuthNamespaceAndPrefix", oans, "backend.go buildBackendOAuth: where the namespace and the prefix handed to findBackend come from")
 	// cache.go GetTLSSecretPath: a certificate from a file is parsed
 	addInt("c09ReadCertificateFileCalls", itoa(len(c09CallArgs(cache, methodDecl(cache, "c", "GetTLSSecretPath"), "c.sslCerts.readCertificateFile", 0, 1))),
 		"services/cache.go GetTLSSecretPath: calls of sslCerts.readCertificateFile (file:// branch)")
